@@ -197,7 +197,7 @@ def add_processes(sim, o, cd_a, *, adder_process, counter_process, mux_process=F
 
 
 # ------------------------------------------------------------------------------------------ scripts
-def draw_script(draw, design, owned_inputs, tl, nops, allow_changed=True):
+def draw_script(draw, design, owned_inputs, tl, nops, allow_changed=True, allow_watch=False):
     """Testbench script; the generator follows the timeline so that delays never expire on a clock toggle."""
     prog = design["prog"]
     env = prog["env"]
@@ -207,6 +207,13 @@ def draw_script(draw, design, owned_inputs, tl, nops, allow_changed=True):
     awaited = False       # before the first await an edge at t=0 (explicit zero phase) is still ahead
     for _ in range(nops):
         k = draw(INT(0, 15))
+        if allow_watch and awaited and draw(INT(0, 5)) == 0:
+            # a multi-shot changed() loop entered AFTER other awaits: it must sleep until the counter really changes
+            cnt = draw(INT(1, 3))
+            ops.append(["watch", cnt])
+            for _ in range(cnt):
+                now = tl.next_edge(now, lambda t: "a" in tl.active(t))
+            continue
         if k >= 14:
             which = PICK(draw, ["wa_en", "wb_en", "wa_data", "wb_data", "wa_addr", "wb_addr", "wa_en", "wb_en"])
             v = {"wa_en": 1, "wb_en": 2}.get(which) if which in ("wa_en", "wb_en") and draw(INT(0, 3)) else \
@@ -286,6 +293,13 @@ def run_script(ctx, o, cds, ops, log, tbid, samples=None):
             elif k == "repeat":
                 await c.tick(cds[op[1]]).repeat(op[2])
                 rec = []
+            elif k == "watch":
+                seen = 0
+                async for values in c.changed(o.cnt):
+                    log.append((tbid, i, c.elapsed_time().femtoseconds, (values[0],)))
+                    seen += 1
+                    if seen >= op[1]:
+                        break
             elif k == "delay":
                 await c.delay(Period(fs=op[1]))
                 rec = []
@@ -421,7 +435,7 @@ def perm_body(ctx, case, K=None):
 def single_cases(draw, depth, nops):
     design = draw(designs(depth))
     tl = Timeline(design["clocks"])
-    script = draw_script(draw, design, list(design["prog"]["inputs"]), tl, draw(INT(3, nops)))
+    script = draw_script(draw, design, list(design["prog"]["inputs"]), tl, draw(INT(3, nops)), allow_watch=True)
     script = [op for op in script if op[0] not in ("setx", "getx")]
     return {"design": design, "script": script}
 
@@ -456,8 +470,8 @@ def single_body(ctx, case):
     vals, fstate = it.initial({i: 0 for i in prog["inputs"]})
     vals = it.settle(vals, fstate)
     log = []
-    state = {"now": 0, "vals": vals, "fstate": fstate, "pre": None, "started": False}
-    stats = dict(coincident=False, sampled=False, cross_domain_sample=False, get_after_set=False, phase0=False)
+    state = {"now": 0, "vals": vals, "fstate": fstate, "pre": None, "started": False, "cnt": 0}
+    stats = dict(coincident=False, sampled=False, cross_domain_sample=False, get_after_set=False, phase0=False, watch=False)
 
     def advance_to(t_target):
         """Process every toggle instant in (now, t_target] (including now itself before the first await)."""
@@ -471,6 +485,8 @@ def single_body(ctx, case):
             if len(tl.toggles(nt)) > 1: stats["coincident"] = True
             if act:
                 state["vals"], state["fstate"] = joint_edge(it, prog, state["vals"], state["fstate"], act)
+            if "a" in act:
+                state["cnt"] = (state["cnt"] + 1) % 16         # the free-running counter of the design (cnt_en stays 1)
             if nt == 0: stats["phase0"] = True
             t = nt
         state["now"] = t_target
@@ -507,6 +523,12 @@ def single_body(ctx, case):
                     stats["cross_domain_sample"] = True
                 rec = [1, 0] + [pre[j] for j in op[2]] + [state["vals"][j] for j in op[2]]
             expected.append((0, i, state["now"], tuple(rec)))
+        elif k == "watch":
+            for _ in range(op[1]):
+                t = tl.next_edge(state["now"], lambda t: "a" in tl.active(t), inclusive=not state["started"])
+                advance_to(t)
+                expected.append((0, i, state["now"], (state["cnt"],)))
+            stats["watch"] = True
         elif k == "delay":
             advance_to(state["now"] + op[1])
             expected.append((0, i, state["now"], ()))
@@ -612,5 +634,5 @@ def parts(tier):
 REQUIRED = ["perm:multi-runnable", "perm:orders-differed", "perm:changed-process", "perm:tick-sample-process", "perm:default-then-override-process", "perm:memory-written",
             "perm:several-testbenches", "perm:equal-periods", "single:coincident", "single:sampled",
             "single:cross_domain_sample", "single:get_after_set", "single:default-phase", "single:explicit-zero-phase",
-            "single:negedge-domain", "single:delay", "single:posedge-negedge", "lockstep:checked",
+            "single:negedge-domain", "single:delay", "single:posedge-negedge", "single:watch", "lockstep:checked",
             "replace:inputs-driven-and-observed"]
